@@ -130,7 +130,7 @@ func c08Inputs(thorough bool) []c01Input {
 	return r
 }
 
-func c08Chunkings(in c01Input, allSingles bool) []c01Chunking {
+func c08Chunkings(in c01Input, allSingles, pairs bool) []c01Chunking {
 	n := len(in.Data)
 	if n <= 1 {
 		return []c01Chunking{{}}
@@ -140,6 +140,15 @@ func c08Chunkings(in c01Input, allSingles bool) []c01Chunking {
 		cand = append(cand, in.PtrEnd-1, in.PtrEnd, in.PtrEnd+1)
 	}
 	r := c01CutSets(n, cand)
+	if !pairs {
+		var k []c01Chunking
+		for _, c := range r {
+			if len(c.Cuts) <= 1 {
+				k = append(k, c)
+			}
+		}
+		r = k
+	}
 	if n <= 1025 {
 		r = append(r, c01Chunking{Every: 1})
 	}
@@ -265,9 +274,11 @@ func (e *c01Env) c08PartInproc() c01Part {
 		in := e.inputs[x.In(len(e.inputs))]
 		n := len(in.Data)
 		wt := []c01WT{{Kind: "absent"}, {Kind: "same"}}[x.In(2)]
-		chs := c08Chunkings(in, c08AllSingles(in.Name))
-		ch := chs[x.In(len(chs))]
 		eof := x.In(2) == 1
+		// quick: pairs of cut points and the every-position sweep only without a file at the path and with a separate EOF
+		rich := e.thorough || (wt.Kind == "absent" && !eof)
+		chs := c08Chunkings(in, c08AllSingles(in.Name) && rich, rich)
+		ch := chs[x.In(len(chs))]
 		parses := c01ImplParses(in.Data)
 		caseID := fmt.Sprintf("inproc input=%s worktree=%s chunking=%s eof-with-last-read=%v", in.Name, wt, ch, eof)
 		r := vx.Result{Evals: 1, Counters: map[string]int64{}, NonTrivial: []string{caseID}, Sample: map[string]interface{}{"delivery": "in-process commands.clean/commands.smudge", "input": in.Name, "bytes": n,
@@ -336,22 +347,57 @@ func (e *c01Env) c08PartInproc() c01Part {
 	return c01Part{"inproc", run}
 }
 
-func (e *c01Env) c08OneshotChunkings(in c01Input) []c01Chunking {
-	var r []c01Chunking
-	for _, c := range c08Chunkings(in, false) {
-		if len(c.Cuts) <= 1 || e.thorough {
-			r = append(r, c)
+// quick tier: the e2e parts run on the inputs of base pointer 0 with the main fill kinds; thorough: all inputs
+func (e *c01Env) c08E2EInputs() []c01Input {
+	if e.thorough {
+		return e.inputs
+	}
+	var r []c01Input
+	for _, in := range e.inputs {
+		drop := strings.HasPrefix(in.Name, "ext4-") || strings.HasPrefix(in.Name, "var3-")
+		for _, k := range []string{"-crlf-", "-tab-", "-nlx-", "-size2-"} {
+			if strings.Contains(in.Name, k) {
+				drop = true
+			}
+		}
+		if !drop {
+			r = append(r, in)
 		}
 	}
 	return r
 }
 
+func (e *c01Env) c08OneshotChunkings(in c01Input, wt c01WT) []c01Chunking {
+	if e.thorough {
+		return c08Chunkings(in, false, true)
+	}
+	n := len(in.Data)
+	if wt.Kind != "absent" || n <= 1 {
+		return []c01Chunking{{}}
+	}
+	cand := []int{1, 1024, n - 1}
+	if in.PtrEnd > 0 {
+		cand = append(cand, in.PtrEnd)
+	}
+	var r []c01Chunking
+	for _, c := range c01CutSets(n, cand) {
+		if len(c.Cuts) <= 1 {
+			r = append(r, c)
+		}
+	}
+	if in.Name == "canon0" || in.Name == "var0-extra-trailing-newline" || in.Name == "ext0-bin-1023" {
+		r = append(r, c01Chunking{Every: 1})
+	}
+	return r
+}
+
 func (e *c01Env) c08PartOneshot() c01Part {
+	ins := e.c08E2EInputs()
 	run := func(x *vx.X) vx.Result {
-		in := e.inputs[x.In(len(e.inputs))]
+		in := ins[x.In(len(ins))]
 		n := len(in.Data)
 		wt := []c01WT{{Kind: "absent"}, {Kind: "same"}}[x.In(2)]
-		chs := e.c08OneshotChunkings(in)
+		chs := e.c08OneshotChunkings(in, wt)
 		ch := chs[x.In(len(chs))]
 		parses := c01ImplParses(in.Data)
 		caseID := fmt.Sprintf("oneshot input=%s worktree=%s chunking=%s", in.Name, wt, ch)
@@ -416,11 +462,25 @@ func (e *c01Env) c08PartOneshot() c01Part {
 }
 
 func (e *c01Env) c08PartFilterProcess() c01Part {
+	ins := e.c08E2EInputs()
 	run := func(x *vx.X) vx.Result {
-		in := e.inputs[x.In(len(e.inputs))]
+		in := ins[x.In(len(ins))]
 		n := len(in.Data)
 		wt := []c01WT{{Kind: "absent"}, {Kind: "same"}}[x.In(2)]
 		pks := c01PksFor(n)
+		if !e.thorough {
+			if wt.Kind != "absent" {
+				pks = pks[:1]
+			} else {
+				var k []c01Pk
+				for _, p := range pks {
+					if p.name == "65516" || p.name == "1" || p.name == "1024" || p.name == "1/65516" {
+						k = append(k, p)
+					}
+				}
+				pks = k
+			}
+		}
 		pk := pks[x.In(len(pks))]
 		parses := c01ImplParses(in.Data)
 		caseID := fmt.Sprintf("filter-process input=%s worktree=%s packets=%s", in.Name, wt, pk.name)
@@ -495,8 +555,12 @@ func (e *c01Env) c08PartFilterProcess() c01Part {
 
 func (e *c01Env) c08PartGit() c01Part {
 	actions := []string{"git add", "git hash-object --path (no file)", "git hash-object --path (same file)"}
+	if !e.thorough {
+		actions = actions[:2]
+	}
+	ins := e.c08E2EInputs()
 	run := func(x *vx.X) vx.Result {
-		in := e.inputs[x.In(len(e.inputs))]
+		in := ins[x.In(len(ins))]
 		n := len(in.Data)
 		process := x.In(2) == 0
 		act := actions[x.In(len(actions))]
